@@ -33,6 +33,15 @@ func (x *ctx) unexpected(key string, err error) error {
 }
 
 func (x *ctx) step(st Step) error {
+	x.argModified = ""
+	err := x.step1(st)
+	if (err == nil || err == errKnown) && x.argModified != "" {
+		return x.fail("C05:"+st.Op+":operand-value-modified", "%s", x.argModified)
+	}
+	return err
+}
+
+func (x *ctx) step1(st Step) error {
 	switch st.Op {
 	case "Add", "AddNew", "Sub", "SubNew":
 		return x.stepAddSub(st)
@@ -63,6 +72,33 @@ func (x *ctx) deg0Ciphertext(pt *rlwe.Plaintext) *rlwe.Ciphertext {
 func (x *ctx) call2(op string, op0 *rlwe.Ciphertext, arg rlwe.Operand, out *rlwe.Ciphertext) (*rlwe.Ciphertext, error) {
 	ev := x.eval
 	var err error
+	// value operands are snapshotted and compared after the call
+	switch v := arg.(type) {
+	case *big.Int:
+		snap := new(big.Int).Set(v)
+		defer func() {
+			if snap.Cmp(v) != 0 {
+				x.argModified = fmt.Sprintf("the caller's *big.Int operand was %s and is %s after the call", snap, v)
+			}
+		}()
+	case []uint64:
+		snap := append([]uint64(nil), v...)
+		defer func() {
+			if i := firstDiff(snap, v); i >= 0 {
+				x.argModified = fmt.Sprintf("the caller's []uint64 operand changed at index %d: %d -> %d", i, snap[i], v[i])
+			}
+		}()
+	case []int64:
+		snap := append([]int64(nil), v...)
+		defer func() {
+			for i := range snap {
+				if snap[i] != v[i] {
+					x.argModified = fmt.Sprintf("the caller's []int64 operand changed at index %d: %d -> %d", i, snap[i], v[i])
+					break
+				}
+			}
+		}()
+	}
 	switch op {
 	case "Add":
 		err = ev.Add(op0, arg, out)
@@ -169,7 +205,7 @@ func (x *ctx) stepAddSub(st Step) error {
 			}
 		}
 		if b.class == "scalar" {
-			vals = x.vecScalar(f, a.vals, b.sval)
+			vals = x.addScalarVals(f, a.vals, b.sval)
 		} else {
 			vals = x.vecOp(f, a.vals, b.vvals)
 		}
@@ -181,6 +217,9 @@ func (x *ctx) stepAddSub(st Step) error {
 	x.note(st.Op, b.class)
 	if reg != nil && (err != nil || b.oversize) {
 		reg.dead = true // the receiver may have been resized before the error: its old value is not claimed any more
+	}
+	if b.e != nil && b.e.flipped {
+		return x.expectErr(key, "batched-mismatch", err) // InitOutputBinaryOp check 5: op0.IsBatched == op1.IsBatched
 	}
 	if b.oversize {
 		return x.expectErr(key, "oversize-vector", err)
@@ -219,6 +258,9 @@ func (x *ctx) matchBound(S, s0 uint64, B0 *big.Int, s1 uint64, B1 *big.Int) *big
 // possibly of higher degree and/or level than the result and with another scale); its old value is dead afterwards and
 // the register holds the result (second return value).
 func (x *ctx) receiver(st Step, deg, lvl int, avoid ...*entry) (*rlwe.Ciphertext, *entry) {
+	if st.OutReg == 0 && x.ctCount() >= poolCap && st.A%2 == 0 {
+		st.OutReg = 1 + st.A + st.Acc // full register file: every second call must re-use a register
+	}
 	if st.OutReg > 0 {
 		var cands, deg2 []*entry
 		for _, e := range x.pool {
@@ -270,7 +312,47 @@ func (x *ctx) store(reg *entry, res *rlwe.Ciphertext, vals []uint64, B *big.Int,
 		return err
 	}
 	x.pool = append(x.pool, e)
+	x.evict(e)
 	return nil
+}
+
+// poolCap is the size of the ciphertext register file: a result that needs a new register when the file is full
+// evicts the oldest ciphertext, so that long programs keep working on (and writing into) registers with a history.
+const poolCap = 6
+
+func (x *ctx) ctCount() (n int) {
+	for _, e := range x.pool {
+		if e.ct != nil {
+			n++
+		}
+	}
+	return
+}
+
+func (x *ctx) evict(keep *entry) {
+	for x.ctCount() > poolCap {
+		victim := -1
+		// retired elements go first, then the oldest
+		for i, e := range x.pool {
+			if e.ct != nil && e != keep && e.dead {
+				victim = i
+				break
+			}
+		}
+		if victim < 0 {
+			for i, e := range x.pool {
+				if e.ct != nil && e != keep {
+					victim = i
+					break
+				}
+			}
+		}
+		if victim < 0 {
+			return
+		}
+		x.pool = append(x.pool[:victim:victim], x.pool[victim+1:]...)
+		x.rec.Class("evicted")
+	}
 }
 
 // negQInv returns (-Q_level)^-1 mod t.
@@ -330,7 +412,7 @@ func (x *ctx) stepMul(st Step) error {
 		} else if relin && !x.hasRlk {
 			reason = "no-relin-key"
 		}
-		vals = x.vecOp(mulmod, a.vals, b.e.vals)
+		vals = x.mulVals(a.vals, b.e.vals)
 		sc := mulmod(s0, s1, x.t)
 		if si {
 			if x.qmulClash {
@@ -348,11 +430,14 @@ func (x *ctx) stepMul(st Step) error {
 	case "pt":
 		l1, s1 := b.e.level(), b.e.scale()
 		wantLvl, wantDeg = imin(l0, l1), d0
+		if b.e.flipped {
+			reason = "batched-mismatch" // InitOutputBinaryOp check 5
+		}
 		if !isNew {
 			out, reg = x.receiver(st, wantDeg, wantLvl, a)
 			wantLvl = imin(wantLvl, out.Level())
 		}
-		vals = x.vecOp(mulmod, a.vals, b.e.vals)
+		vals = x.mulVals(a.vals, b.e.vals)
 		B = x.tensorStd(a.B, x.tB)
 		sc := mulmod(s0, s1, x.t)
 		if siName {
@@ -383,7 +468,7 @@ func (x *ctx) stepMul(st Step) error {
 				wantDeg = -1
 			}
 		}
-		vals = x.vecOp(mulmod, a.vals, b.vvals)
+		vals = x.mulVals(a.vals, b.vvals)
 		B = x.tensorStd(a.B, x.tB)
 		alt = s0
 	}
@@ -469,8 +554,11 @@ func (x *ctx) stepMulThenAdd(st Step) error {
 			}
 		} else {
 			wantDeg = imax(d0, dacc)
+			if b.e.flipped {
+				reason = "batched-mismatch"
+			}
 		}
-		prod := x.vecOp(mulmod, a.vals, b.e.vals)
+		prod := x.mulVals(a.vals, b.e.vals)
 		vals = x.vecOp(addmod, acc.vals, prod)
 		Bp := x.tensorStd(a.B, b.e.B)
 		if relin && b.class == "ct" {
@@ -493,7 +581,7 @@ func (x *ctx) stepMulThenAdd(st Step) error {
 		}
 	case "vector":
 		wantLvl, wantDeg = imin(l0, lacc), imax(d0, dacc)
-		vals = x.vecOp(addmod, acc.vals, x.vecOp(mulmod, a.vals, b.vvals))
+		vals = x.vecOp(addmod, acc.vals, x.mulVals(a.vals, b.vvals))
 		B = addB(acc.B, x.tensorStd(a.B, x.tB))
 		if s0 != sacc {
 			x.mismatch = true
